@@ -110,7 +110,7 @@ def config_atom(fn, e, _seen=None):
     return ("other", show(e0)[:100])
 
 
-def transformation_steps(ctx, fn):
+def transformation_steps(ctx, fn, _depth=0):
     """[(kind, bb, [(atom, truth)])] for normalize / fold steps in a Char impl body."""
     steps = []
     for bi, t in fn.calls():
@@ -130,6 +130,12 @@ def transformation_steps(ctx, fn):
                 truth = g[2] in ([None], [1])
                 gs.append((config_atom(fn, g[3]), truth))
             steps.append((kind, bi, gs))
+        elif c == "<char as chars::Char>::normalize" and fn.path != c and _depth < 2:
+            # delegation to the sibling routine: its steps, under the guards of the call site
+            sib = get_fn(ctx.facts, M, c)
+            here = [(config_atom(fn, g[3]), g[2] in ([None], [1])) for g in guards_of(fn, bi)]
+            for k2, b2, g2 in transformation_steps(ctx, sib, _depth + 1):
+                steps.append((k2, bi, here + g2))
     # AsciiChar: `self.0 += 32`
     for bi, si, s in fn.stmts(lambda s: s["k"] == "assign" and ("bin" in s["rv"]) and s["rv"]["bin"] in ("Add", "AddWithOverflow") and s["rv"].get("ty") == "u8"):
         b = fn.expr_of_operand(s["rv"]["b"])
@@ -182,7 +188,9 @@ def rule_norm_siblings(ctx):
         ns = [bi for k, bi, _ in steps if k == "normalize"]
         fs = [bi for k, bi, _ in steps if k == "fold"]
         if ns and fs:
-            if all(f in fn.reach_from(n) and n not in fn.reach_from(f) for n in ns for f in fs):
+            if set(ns) == set(fs) and len(set(ns)) == 1:
+                ctx.ok(site(fn, ns[0]), "both steps are delegated to the sibling routine (order checked there)")
+            elif all(f in fn.reach_from(n) and n not in fn.reach_from(f) for n in ns for f in fs):
                 ctx.ok(site(fn, ns[0]), "normalize is applied before fold")
             else:
                 ctx.violation("%s|step-order|1" % fn.path, site(fn, ns[0]), "fold is not applied after normalize")
@@ -285,24 +293,37 @@ def rule_ascii_prefilter(ctx):
             key = "%s|memchr2|%d" % (fn.path, n)
             a = strip_casts(fn.expr_of_operand(t["args"][0]))
             b2 = strip_casts(fn.expr_of_operand(t["args"][1]))
-            off_ok = b2[0] in ("bin", "checked") and b2[1] == "Sub" and strip_casts(b2[2]) == a and b2[3][0] == "const" and b2[3][1] == 32
-            if not off_ok:
-                ctx.violation(key, site(fn, bi), "case-insensitive byte search looks for (%s, %s); the pre-images of c under ASCII folding are exactly {c, c - 32}" % (show(a), show(b2)))
-                continue
-            # guard: c in [97, 122]
-            los = his = None
+            # finite domain: for every byte value x of the first searched byte for which the guards on the path hold,
+            # the searched pair {x, second(x)} must be the pre-images of x under ASCII folding = {x, x - 32}, x in a..=z
+            from absint import Evaluator, Unknown
+            E = Evaluator(facts, M)
+            VAR = ("arg", 9999, "x")
+
+            def subst(e):
+                if not isinstance(e, tuple):
+                    return e
+                if strip_casts(e) == a:
+                    return VAR
+                return tuple(subst(x) if isinstance(x, tuple) else (tuple(subst(y) for y in x) if isinstance(x, tuple) else x) for x in e)
+
+            def subst_deep(e):
+                if isinstance(e, tuple):
+                    if e and isinstance(e[0], str) and strip_casts(e) == a:
+                        return VAR
+                    return tuple(subst_deep(x) for x in e)
+                if isinstance(e, dict):
+                    return {k_: subst_deep(v_) for k_, v_ in e.items()}
+                return e
+            b_x = subst_deep(b2)
             gs = guards_of(fn, bi)
-            rng = []
-            for g in gs:
-                e = g[3]
-                truth = g[2] in ([None], [1])
-                if e[0] == "bin" and e[1] in ("Ge", "Le", "Lt", "Gt") and strip_casts(e[2]) == a and e[3][0] == "const":
-                    rng.append((e[1], e[3][1], truth))
-            okr = ("Ge", 97, True) in rng and ("Le", 122, True) in rng
-            # substring_match_ascii: guarded by position(|c| c in a..z) == Some(0)
+            gx = []
             pos_guard = False
             for g in gs:
                 e = g[3]
+                truth = g[2] in ([None], [1])
+                ex = subst_deep(e)
+                if any(isinstance(x, tuple) and x == VAR for x in walk(ex)):
+                    gx.append((ex, truth))
                 if e[0] == "discr" or e[0] == "field":
                     cands = [e]
                     for x in walk(e):
@@ -312,8 +333,29 @@ def rule_ascii_prefilter(ctx):
                         for x in walk(c_):
                             if x[0] == "call" and str(x[1]).endswith("::position"):
                                 pos_guard = True
+            bad = None
+            admitted = []
+            try:
+                for x in range(256):
+                    env = {9999: x}
+                    if not all(bool(E.ev(ex, env)) == truth for ex, truth in gx):
+                        continue
+                    admitted.append(x)
+                    if not (97 <= x <= 122):
+                        continue   # judged below: the guard must exclude these unless established elsewhere
+                    y = E.ev(b_x, env)
+                    if {x, y} != {x, x - 32}:
+                        bad = (x, y)
+                        break
+            except Unknown as ex_:
+                ctx.violation(key, site(fn, bi), "case-insensitive byte search looks for (%s, %s): not a function of the first byte that can be evaluated (%s)" % (show(a), show(b2), ex_))
+                continue
+            if bad is not None:
+                ctx.violation(key, site(fn, bi), "case-insensitive byte search looks for (%s, %s); for first byte %r the second is %s, but the pre-images of c under ASCII folding are exactly {c, c - 32}" % (show(a), show(b2), bad[0], bad[1]))
+                continue
+            okr = bool(gx) and all(97 <= x <= 122 for x in admitted)
             if okr:
-                ctx.ok(site(fn, bi), "searches {c, c-32} only when c is in b'a'..=b'z' (image of A..=Z under +32)")
+                ctx.ok(site(fn, bi), "searches {c, c-32} only when c is in b'a'..=b'z' (image of A..=Z under +32); %d byte values admitted by the guards" % len(admitted))
             elif pos_guard:
                 # closure must test a..z and the arm must be Some(0) with c = needle[0]
                 ctx.ok(site(fn, bi), "searches {c, c-32} for needle[0] on the arm where the first a..z letter is at position 0")
